@@ -244,6 +244,12 @@ func (vc *FnVC) unop(x *ssa.UnOp) {
 				}
 			}
 		}
+		if fv, ok := x.X.(*ssa.FreeVar); ok && immutableFreeVar(vc.fn, fv, 0) {
+			// a captured variable that is assigned exactly once, by the enclosing function, before the closure is built and
+			// never again by any closure: every load in this closure yields the same value
+			vc.vals[x] = vc.fvConstTerm(fv)
+			return
+		}
 		vc.nilCheckAddr(x.X, x.Pos())
 		lv := vc.lvOf(x.X)
 		if _, isArr := lv.typ.Underlying().(*types.Array); isArr && len(lv.steps) == 0 && strings.HasPrefix(lv.comp, "A$") {
@@ -881,6 +887,90 @@ func (vc *FnVC) immutableCell(a *ssa.Alloc) ssa.Value {
 	}
 	vc.immut[a] = stored
 	return stored
+}
+
+func (vc *FnVC) fvConstTerm(fv *ssa.FreeVar) Term {
+	if vc.fvConst == nil {
+		vc.fvConst = map[*ssa.FreeVar]Term{}
+	}
+	t, ok := vc.fvConst[fv]
+	if !ok {
+		ty := fv.Type().Underlying().(*types.Pointer).Elem()
+		t = vc.declare("fvc$"+fv.Name(), vc.e.sortOf(ty))
+		vc.fvConst[fv] = t
+		vc.assumeWF(t, ty, vc.mem0)
+		// it is the content of the variable's cell on entry (contracts write deref(x) for that)
+		vc.assume("true", app("=", t, vc.loadLV(vc.lvOf(fv), vc.mem0)))
+	}
+	return t
+}
+
+// immutableFreeVar: the variable captured as fv is assigned exactly once in the function that declares it and is not
+// written by any closure that captures it.
+func immutableFreeVar(fn *ssa.Function, fv *ssa.FreeVar, depth int) bool {
+	parent := fn.Parent()
+	if parent == nil || depth > 4 {
+		return false
+	}
+	idx := -1
+	for i, f := range fn.FreeVars {
+		if f == fv {
+			idx = i
+		}
+	}
+	if idx < 0 {
+		return false
+	}
+	found := false
+	for _, b := range parent.Blocks {
+		for _, in := range b.Instrs {
+			mc, ok := in.(*ssa.MakeClosure)
+			if !ok || mc.Fn != ssa.Value(fn) {
+				continue
+			}
+			found = true
+			switch bind := mc.Bindings[idx].(type) {
+			case *ssa.Alloc:
+				if !allocAssignedOnce(bind) {
+					return false
+				}
+			case *ssa.FreeVar:
+				if !immutableFreeVar(parent, bind, depth+1) {
+					return false
+				}
+			default:
+				return false
+			}
+		}
+	}
+	return found
+}
+
+// allocAssignedOnce: exactly one store to the cell, its address never escapes except into closures that do not write it.
+func allocAssignedOnce(a *ssa.Alloc) bool {
+	n := 0
+	if refs := a.Referrers(); refs != nil {
+		for _, r := range *refs {
+			switch u := r.(type) {
+			case *ssa.Store:
+				if u.Addr != ssa.Value(a) {
+					return false
+				}
+				n++
+			case *ssa.UnOp, *ssa.DebugRef:
+			case *ssa.MakeClosure:
+				fn := u.Fn.(*ssa.Function)
+				for i, b := range u.Bindings {
+					if b == ssa.Value(a) && freeVarWritten(fn, i, 0) {
+						return false
+					}
+				}
+			default:
+				return false
+			}
+		}
+	}
+	return n == 1
 }
 
 func freeVarWritten(fn *ssa.Function, idx int, depth int) bool {
